@@ -44,3 +44,6 @@ chk("C18", "exploration", "runtime monitors: Row.Scan conversion grid vs an inde
 chk("C07", "exploration", "schedule-controlled runtime monitor: real SQLite writer frozen before every file/lock syscall (LD_PRELOAD shim), lock state observed in /proc/locks, all reads compared with SQLite's own view from another process",
     "Enumerates every syscall boundary of the writer's transaction for 4 (quick) / ~46 (thorough) scenario x journal-mode x page-size combinations incl. spill, stale PERSIST journal and the PENDING-without-EXCLUSIVE window; two reader kinds per point. Two-party schedules at syscall granularity, not all N-party interleavings.",
     "/proc/locks is truthful; python sqlite3 3.40.1 is the writer and the reference reader", "DESIGN.md 3 C07")
+chk("C09", "fault_enumeration", "crash-injection monitor: real SQLite writer killed (or write torn) at its k-th file operation by an LD_PRELOAD shim; sqlittle on the leftover pair vs SQLite's recovery of a copy",
+    "Enumerates the syscall boundaries (write/truncate/sync/unlink on database and journal) of 3 (quick, strided + all sync/unlink/truncate neighbours) / ~48 (thorough, every k, kill and torn) scenario x journal-mode x page/sector-size combinations. Process-death crashes only (page cache survives); torn writes at half length.",
+    "SQLite's own recovery of a copy is the reference; journal classified by its first bytes", "DESIGN.md 3 C09")
